@@ -36,6 +36,19 @@ def proj(x, full=False):
   return ("A", type(x).__name__, str(x), repr(x))
 
 
+def proj_nocache(x):
+  """proj() without the private lookup caches (they are filled lazily by later Lookup() calls)."""
+  p = proj(x)
+
+  def strip(q):
+    if q[0] == "T":
+      return ("T", [strip(c) for c in q[1]])
+    if q[0] == "N":
+      return ("N", q[1], [(f, strip(v)) for f, v in q[2] if f != "_name2item"])
+    return q
+  return strip(p)
+
+
 def cstr(s):
   if not s.isascii():
     raise ValueError("non-ascii string in projection: %r" % s)
